@@ -22,6 +22,21 @@ SEM_NOTE = ("Trusted: TLC 1.8 evaluating spec/AdfSem.tla; the harness logging wh
             "--selftest: a corrupted record is rejected). Bounded: exhaustive only for ADFs with <= 2 statements on the code side "
             "and <= 3 (structured sample) on the model side; larger ADFs are seeded samples.")
 
+
+# additions of the second build round: appended to the level texts after the table below is built
+ROUND2 = {
+ "C01": " Frameworks of 9-16 statements are composed of independent blocks and observer statements; TLC verifies the decomposition on the logged ASTs and derives the answer block-wise with AdfCompose, whose composition theorem MC_Compose model-checks against the direct definitions for every ADF of five small shapes.",
+ "C06": " Long sequences on large stores (7-10 variables, up to 250 nodes) are judged with the integer-assignment operators of BigBdd (all denotations built bottom-up in one pass; agreement with RobddOps is checked on every small table).",
+ "C14": " Deep frameworks (40-100 statements, diagrams across the 63/64/65-level boundary) are round-tripped as well (this found F16); the state a round trip hands back is audited like any other store state and a failed audit is a C14 verdict.",
+ "C18": " A quarter of the sequences live on 2-6 positions scattered over a store up to 140 000 positions wide (word and bitmap-container boundaries); TLC maps real positions back through the record's position list.",
+ "C19": " FrontendHangup.tla adds the last store being dropped in mid-run (the relay must keep mirroring; a forward-first relay is shown to fail); scheduled runs of the real chain include the hang-up, streams of 100-400 nodes forwarded in bursts across 32/64 message boundaries, and free-running runs of 120-200 nodes.",
+}
+ROUND2["C02"] = ROUND2["C03"] = ROUND2["C04"] = ROUND2["C05"] = ROUND2["C01"]
+ROUND2["C03"] += " C03-C05 also run frameworks with 256-512 stable models (mutual-attack pairs, exactly-one triples, self-supporters)."
+ROUND2["C04"] = ROUND2["C05"] = ROUND2["C03"]
+ROUND2["C07"] = ROUND2["C13"] = ROUND2["C06"]
+ROUND2["C11"] = " Deep frameworks (40-100 statements) answer a call history as well; where they decompose into constant statements and observers TLC judges the answers with AdfCompose. The memo tables of the large stores (BigBdd records) are audited entry by entry."
+
 add("C01", "TLC checks that the transcribed grounded_internal (AdfAlgo) equals the least fixpoint (AdfSem) for every ADF over 2 statements "
     "(thorough: 2197 three-statement ADFs) and validates, record by record, grounded answers of the real native/biodivine/hybrid back-ends "
     "against the definition recomputed from the logged formula ASTs.", SEM_NOTE,
@@ -213,7 +228,8 @@ def main():
              "kind_free_text": "python driver: cargo-builds the Rust harness against /repo's working tree, runs TLC model checking of the "
                                "TLA+ modules in /verif/spec, records observations of the real code, validates them with TLC trace modules"},
         ],
-        "checks": [CHECKS[p] for p in props if p in CHECKS],
+        "checks": [dict(CHECKS[p], level_claimed=dict(CHECKS[p]["level_claimed"], text=CHECKS[p]["level_claimed"]["text"] + ROUND2.get(p, "")))
+                   for p in props if p in CHECKS],
         "not_applicable": na,
         "notes": "All checks share ./check <ID>; replay files are written under /verif/replays/<ID>/.",
     }
